@@ -40,6 +40,7 @@ TARGETS = {
     "remove_complex_nodes": ("ufl.algorithms.remove_complex_nodes", "C23", {"complex": False}),
     "do_comparison_check": ("ufl.algorithms.comparison_checker", "C23", {"complex": False}),
     "compute_form_data": ("ufl.algorithms.compute_form_data", "C01", {"whole": True}),
+    "replace": ("ufl.algorithms.replace", "C21", {"complex": True, "replace": True}),
 }
 
 # mutation monitoring (C27): "mut:<name>" targets; the inputs of the OUTERMOST monitored call are snapshotted
@@ -164,6 +165,20 @@ def _has_restricted(e):
     return False
 
 
+def _contains_class(e, names):
+    seen = set()
+    stack = [e]
+    while stack:
+        o = stack.pop()
+        if id(o) in seen:
+            continue
+        seen.add(id(o))
+        if type(o).__name__ in names:
+            return True
+        stack.extend(getattr(o, "ufl_operands", ()))
+    return False
+
+
 def _size(e, cap=6000):
     seen = set()
     stack = [e]
@@ -205,6 +220,26 @@ def judge_pass(name, prop, opts, inp, out, args, kwargs):
     else:
         cell, gdim = "triangle", 2
     rng = random.Random(f"suitemon/{name}/{REC.counters.get(name + ':events', 0)}")
+    subst = None
+    if opts.get("replace"):
+        # value of the output = value of the input with the mapped terminals overridden by their images
+        from ufl.constantvalue import as_ufl
+
+        mapping = args[1] if len(args) > 1 else kwargs.get("mapping")
+        if not isinstance(mapping, dict) or not mapping:
+            REC.count(name + ":skipped_mapping_kind")
+            return
+        if any(type(k).__name__ not in ("Coefficient", "Argument", "Constant") for k in mapping):
+            REC.count(name + ":skipped_mapping_kind")
+            return
+        if any(_contains_class(e, ("CoefficientDerivative", "CoordinateDerivative")) for es in gin.values() for e in es):
+            REC.count(name + ":skipped_lazy_derivative")  # known finding of C21: expanded before substitution
+            return
+        try:
+            subst = {k: ("expr", as_ufl(v)) for k, v in mapping.items()}
+        except Exception:
+            REC.count(name + ":skipped_mapping_kind")
+            return
     for key in sorted(set(gin) | set(gout), key=repr):
         ins = gin.get(key, [])
         outs = gout.get(key, [])
@@ -224,7 +259,16 @@ def judge_pass(name, prop, opts, inp, out, args, kwargs):
         except Unsupported:
             REC.count(name + ":skipped_world")
             continue
-        if key is None:
+        if key is None and subst is not None:
+            def fin_r(w, B, e=ins[0]):
+                w.subst = subst
+                try:
+                    return S(e, w, B)
+                finally:
+                    w.subst = {}
+
+            vs = [oracle.compare_once(fin_r, lambda w, B, e=outs[0]: S(e, w, B), w) for w in worlds]
+        elif key is None:
             # bare expression: shape and free indices may be anything
             vs = oracle.preserved(ins[0], outs[0], worlds)
         else:
@@ -244,7 +288,12 @@ def judge_pass(name, prop, opts, inp, out, args, kwargs):
                 return tot, flags, mx
 
             def fin(w, B, ins=ins, itype=itype):
-                tot, flags, mx = total(ins, w, B)
+                if subst is not None:
+                    w.subst = subst
+                try:
+                    tot, flags, mx = total(ins, w, B)
+                finally:
+                    w.subst = {}
                 if opts.get("scaled"):
                     from .props.C01 import expected_scale
 
